@@ -2,9 +2,10 @@
 
 import os
 
-# which of the repairs of C10-F1 (637ae67), C10-F2 (c971513), C10-F3 (e0dc5e2) the tree under test contains ("1" = present).
-# Default 111 = /repo as it is now.  VERIF_C10_FIXED=000 selects the model of the originally pinned code (for experiments against an
-# old checkout only; with the findings recorded as fixed, its defect behaviour is then reported as VIOLATION, as it should be).
+# which of the repairs of C10-F1..F5 (637ae67, c971513, e0dc5e2, a3cbbb3, 8647e06) the tree under test contains ("1" = present).
+# Default 11111 = /repo as it is now.  VERIF_C10_FIXED=00000 selects the model of the originally pinned code (for experiments against
+# an old checkout only: with the findings recorded as fixed, its defect behaviour is then reported as VIOLATION, as it should be; with
+# digit 2 or 4 = 0 the guards 2 / 4 of the evaluator fire on EVERY http case, i.e. on such a tree all http cases are exempted).
 _FIXED = (os.environ.get("VERIF_C10_FIXED", "11111") + "11111")[:5]
 _CHECK = "check (mkfx %s)" % " ".join("true" if d == "1" else "false" for d in _FIXED)
 
@@ -13,18 +14,18 @@ OVERLAY = {
 }
 
 def _extra_coverage():
-    """skipped / broken cases as first-class numbers of the evidence (the driver itself fails above 5 % skipped)"""
+    """skipped / broken cases of THIS run as first-class numbers of the evidence (the driver itself fails above 5 % skipped)"""
     import json
+    import vf
     out = {"skipped_cases": 0, "broken_cases": 0}
-    path = os.path.join(os.path.dirname(os.path.dirname(os.path.abspath(__file__))), "out", "C10", "obs_all.jsonl")
-    try:
-        with open(path) as fh:
-            for line in fh:
-                tags = json.loads(line).get("tags") or []
-                out["skipped_cases"] += any(t.startswith("skipped:") for t in tags)
-                out["broken_cases"] += any(t.startswith("broken:") for t in tags)
-    except OSError:
-        pass
+    path = os.path.join(vf.OUT, "C10", "obs_all.jsonl")
+    if not os.path.exists(path):
+        return {"skipped_cases": None, "broken_cases": None, "skipped_note": "no observation file at %s" % path}
+    with open(path) as fh:
+        for line in fh:
+            tags = json.loads(line).get("tags") or []
+            out["skipped_cases"] += any(t.startswith("skipped:") for t in tags)
+            out["broken_cases"] += any(t.startswith("broken:") for t in tags)
     return out
 
 
@@ -38,7 +39,7 @@ P = {
                  "C10_config_only_shortens", "C10_rule_level_ttl_bounds",
                  "C10_http_within_rfc_freshness", "C10_http_not_stored_when_stale", "C10_http_not_stored_without_lifetime",
                  "C10_http_within_rfc_freshness_at_set", "C10_http_not_stored_when_stale_at_set",
-                 "C10_F4_pinned_bound", "C10_F4_pinned_refuted",
+                 "C10_http_declared_lifetime_bound", "C10_F4_pinned_refuted",
                  "C10_no_hit_after_expiry", "C10_no_hit_after_expiry_http",
                  "C10_no_hit_after_expiry_any_rule", "C10_hit_age_within_ttl_in_force", "C10_F5_pinned_refuted",
                  "C10_F1_pinned_refuted", "C10_F1_history_pinned_refuted", "C10_F2_pinned_refuted", "C10_F3_pinned_refuted",
@@ -93,8 +94,11 @@ P = {
     ],
     "trusted": [
         "pquerna/cachecontrol's verdict whether a response is cachable at all (no-store, status, method ...) is oracle data of the "
-        "case; the freshness lifetime and age are NOT taken from it: the driver parses max-age/Expires/Date/Age itself and the "
-        "Coq model/specification compute from those values; responses whose only lifetime is the Last-Modified heuristic are not generated",
+        "case; in the single-response `http` cases the freshness lifetime and age are NOT taken from it: the driver parses "
+        "max-age/Expires/Date/Age itself and the Coq model/specification compute from those values; in `hist` cases through the "
+        "round tripper (stub transport or the contextualizer's endpoint) the expiry instant of a response IS cachecontrol's (oracle, "
+        "no Age): they check ttl <= library lifetime and the hit pattern over time, not RFC remaining freshness; responses whose only "
+        "lifetime is the Last-Modified heuristic are not generated",
         "token validation (introspection Validate, SessionLifespan.Assert, certificate validation) is not modelled: a rejected "
         "answer must simply not be stored",
         "miniredis v2.33 stands for a Redis server (PX <= 0 rejected, key gone once PX elapsed); rueidis client-side caching "
@@ -113,15 +117,21 @@ P = {
     "level_text": ("Proof (kernel-checked, no axioms) over all expiry/now/ttl relations in Z, all header values and all request histories "
                   "(induction, both cache semantics), for the code with the repairs of C10-F1..F5, without guards: every ttl a mechanism "
                   "hands to the cache is positive, at most the ttl in force for the rule (rule level, else prototype) and ends strictly "
-                  "before the credential's / leaf certificate's / token's own expiry even if applied 4 s late; a ttl of zero disables lookup "
-                  "and store; for all max-age/Expires/Date/Age values what the round tripper stores lies within the RFC 7234 remaining (at the time of the Set: minus the time the body took to arrive) "
-                  "freshness (lifetime minus current age; transcribed independently of the model) and nothing is stored when that is not "
-                  "positive; no hit in any history at or after expiry, also when requests run under different rules; a hit under a configured "
-                  "ttl c is at most c old (the ttl is part of every cache key); both cache semantics enforce expiry for all Set/Get "
-                  "sequences; the evaluator's property predicate follows from refinement-correspondence for every well-formed case "
-                  "(C10_check_sound_fixed).  What the code did before each repair is kept as C10_F1..F5_pinned_refuted.  The model is tied to "
-                  "the code by ~1250 (quick) / 30000 (thorough) cases per run through the real mechanism factory + WithConfig + Execute, "
-                  "Config.Token, the RFC 7234 round tripper and both real cache backends."),
+                  "before the credential's / leaf certificate's / token's own expiry even if applied 4 s late; a ttl of zero or below "
+                  "disables lookup and store (jwt finalizer excepted: its `ttl` is the token's lifetime, a value <= 5 s only disables the "
+                  "store); for all max-age/Expires/Date/Age values the ttl of the round tripper's single store decision is positive and "
+                  "within the RFC 7234 remaining freshness at the time of the Set (on arrival minus the time the body took; the lifetime is "
+                  "transcribed independently of the model, the current-age term max(Age, now-Date) is the same expression in model and "
+                  "specification) and nothing is stored when that is not positive; no hit in any mechanism history at or after the "
+                  "payload's expiry, also when requests run under different rules; in round-tripper histories no hit later than the "
+                  "library-computed expiry instant plus the delay D between time.Until and the Set (age is proved for the single store "
+                  "decision only, not over histories); a hit under a configured ttl c is at most c old (the ttl is part of every cache "
+                  "key); both cache semantics enforce expiry for all Set/Get sequences; the evaluator's property predicate follows from "
+                  "refinement-correspondence for every well-formed exec/http/cache/hist case (C10_check_sound_fixed; not for mix cases: "
+                  "no soundness theorem, their v_prop is checked as it is).  What the code did before each repair is kept as "
+                  "C10_F1..F5_pinned_refuted.  The model is tied to the code by 1273 (quick: 1200 generated + 73 corpus) / ~30000 (thorough) "
+                  "cases per run through the real mechanism factory + WithConfig + Execute, Config.Token, the RFC 7234 round tripper and "
+                  "both real cache backends."),
     "level_note": ("Trusted: Coq kernel/vm_compute; the correspondence harness; cachecontrol's cachability verdict, miniredis, ttlcache as "
                   "observed.  SPEC DECISIONS (limits of what is proved): (1) `cached verification keys are not used past their "
                   "certificate's expiry` is read as the LEAF certificate (x5c[0], the one that contains the key): its NotAfter bounds the JWK "
@@ -131,10 +141,14 @@ P = {
                   "is not varied -- the theorems prove `strictly before exp`, which is within any non-negative leeway.  (3) `RFC 7234 "
                   "freshness lifetime` = lifetime minus current age per RFC 7234 4.2 (max-age, else Expires-Date, unparsable Expires = "
                   "expired; age = max(Age, now-Date)), not what the library computes.  Repaired findings, all replayed on the real code and "
-                  "now regression witnesses of the corpus (reverting any commit is reported as a VIOLATION with the witness as replay): "
+                  "now regression witnesses of the corpus (re-introducing any of the five defects is reported as a VIOLATION with the witness "
+                  "as replay: revert of the commit; for c971513 removal of its `ttl <= 0` guard, a plain revert conflicts with a3cbbb3): "
                   "C10-F1 637ae67, C10-F2 c971513, C10-F3 e0dc5e2, C10-F4 a3cbbb3 (Age / old Date / unparsable Expires), C10-F5 8647e06 "
-                  "(cache keys without the ttl).  Not covered: rueidis client-side caching, oauth2 metadata-endpoint http cache and "
-                  "verifyTokenWithoutKID paths, evaluator soundness for mixed-rule cases, the cachability verdict (oracle)."),
+                  "(cache keys without the ttl).  Not covered: a history theorem for the round tripper in terms of RFC 7234 remaining "
+                  "freshness (store decision and cache expiry are proved separately, not composed); round-tripper histories carry no "
+                  "Age / invalid Expires and use the library's expiry; slow bodies only through the stub transport, not the httptest "
+                  "server of the contextualizer variant; rueidis client-side caching; oauth2 metadata-endpoint http cache and "
+                  "verifyTokenWithoutKID paths; evaluator soundness for mixed-rule cases; the cachability verdict (oracle)."),
     "assumptions": [
         "durations fit in int64 nanoseconds (time.Duration); the theorems are over unbounded Z",
         "the delay between computing a ttl and the cache applying it is at most 4 s (max_delay) for the strict-before-expiry theorems",
